@@ -30,7 +30,8 @@ RULE = ('cases = (ranked chi² vector over {1, 2, 3.5, +inf, NaN} of length 0..5
 REQUIRED_BRANCHES = ['form_A', 'form_N', 'form_C', 'form_D', 'form_E', 'form_F', 'empty', 'tie', 'inf', 'nan',
                      'nan_first', 'inf_first', 'n_gt_total', 'n_fractional', 'keeps_none', 'keeps_all', 'keeps_some',
                      'cut_between_distinct', 'flags_non_fitted', 'ndata0_E', 'ndata0_F', 'ndata0_empty_flags', 'thr_pinf', 'thr_ninf', 'thr_nan', 'num_int', 'num_np_float64',
-                     'num_np_int64', 'num_np_float32', 'fitted', 'fitted_from_fitter', 'fitted_from_file', 'fitted_pair', 'nfits_read_before_keep', 'nfits_read_between_keeps', 'flags_edited_in_place', 'flags_edited_shared_array',
+                     'num_np_int64', 'num_np_float32', 'fitted', 'fitted_from_fitter', 'fitted_from_file', 'fitted_pair', 'keep_tuple', 'keep_list', 'keep_keyword', 'info_via_copy', 'info_via_deepcopy', 'info_via_pickle',
+                     'nfits_read_before_keep', 'nfits_read_between_keeps', 'flags_edited_in_place', 'flags_edited_shared_array',
                      'flags_replaced_by_setter', 'ndata_changed_by_edit', 'fitted_flags_edited', 'pair_idem', 'pair_looser', 'pair_stricter', 'long']
 ASSUMPTIONS = ['rounding of (chi2 - chi2[0]) / n_data is not modelled: thresholds are kept at least 1e-6 (relative) away '
                'from every attained criterion value, so the float and the exact comparison cannot differ',
@@ -419,12 +420,44 @@ class StaleNFits(Exception):
     pass
 
 
+KEEP_STYLES = ['tuple', 'list', 'keyword']
+VIA = ['none', 'copy', 'deepcopy', 'pickle']
+_style_count = [0]
+
+
+def call_keep(info, s, style):
+    """FitInfo.keep(select_format): the selector as a tuple, as a list (any (form, number) pair is unpacked), or by keyword"""
+    if style == 'list':
+        info.keep(list(s))
+    elif style == 'keyword':
+        info.keep(select_format=tuple(s))
+    else:
+        info.keep(tuple(s))
+
+
+def pass_through(info, via):
+    """the result goes through copy.copy / copy.deepcopy / a pickle round trip before it is used"""
+    import pickle
+    if via == 'copy':
+        return copy.copy(info)
+    if via == 'deepcopy':
+        return copy.deepcopy(info)
+    if via == 'pickle':
+        return pickle.loads(pickle.dumps(info, 2))
+    return info
+
+
 def apply_real(fresh, sels, peek='after'):
     """FitInfo.keep applied left to right on a fresh object; returns (list of n_fits, final rows).
     `n_fits` is read at the moments `peek` names: 'before' (also once before the first keep), 'after' (after every
     keep, hence also between composed keeps), 'end' (only after the last keep).  Whenever it is read it must be the
     number of fits the arrays hold at that moment."""
-    info = fresh()
+    _style_count[0] += 1
+    k_ = _style_count[0]
+    style = KEEP_STYLES[k_ % 3]
+    via = VIA[(k_ // 3) % 4]
+    info = pass_through(fresh(), via)
+    apply_real.last = (style, via)
     ns = []
     with common.quiet():
         if peek == 'before':
@@ -432,7 +465,7 @@ def apply_real(fresh, sels, peek='after'):
             if n0 != len(info.chi2):
                 raise StaleNFits('n_fits = %d before any keep, but the result holds %d fits' % (n0, len(info.chi2)))
         for i, s in enumerate(sels):
-            info.keep(s)
+            call_keep(info, s, style)
             if peek != 'end' or i == len(sels) - 1:
                 n = int(info.n_fits)
                 if n != len(info.chi2):
@@ -457,10 +490,17 @@ def evaluate(chi2, pay, flags, sels, typed, fresh, br, what):
     fresh(): a new FitInfo holding the result.  Returns (ok, detail, real_ns, real_rows)."""
     nd = n_data_of(flags)
     n = len(chi2)
+    import zlib
+    _style_count[0] = zlib.crc32(('%s|%r' % (what, typed)).encode())       # call styles are a function of the case (replayable)
     try:
         singles = []
         for s, ts in zip(sels, typed):
             ns, rows = apply_real(fresh, [ts])
+            br.add('keep_' + apply_real.last[0])
+            if apply_real.last[1] != 'none':
+                br.add('info_via_' + apply_real.last[1])
+            how = ' [selector given as %s%s]' % (apply_real.last[0], '' if apply_real.last[1] == 'none'
+                                                 else ', result passed through %s first' % apply_real.last[1])
             apply_real(fresh, [ts], peek='before')          # n_fits read once before the keep must not stick
             br.add('nfits_read_before_keep')
             k = expected_count(s, chi2, nd)
@@ -468,8 +508,8 @@ def evaluate(chi2, pay, flags, sels, typed, fresh, br, what):
                 return False, 'harness: criterion not monotone on a ranked vector %r %r' % (chi2, s), None, None
             want = cut(pay, chi2, k)
             if ns[0] != k or not ef.rows_equal(rows, want):
-                return (False, '%s: keep(%r) with n_data=%d kept n_fits=%d rows=%r; the property promises '
-                        'the first %d fits of the ranking: %r' % (what, ts, nd, ns[0], rows, k, want), ns, rows)
+                return (False, '%s%s: keep(%r) with n_data=%d kept n_fits=%d rows=%r; the property promises '
+                        'the first %d fits of the ranking: %r' % (what, how, ts, nd, ns[0], rows, k, want), ns, rows)
             singles.append((ns[0], rows))
             if s[0] in 'CDEF' and n:
                 br.add('keeps_none' if k == 0 else 'keeps_all' if k == n else 'keeps_some')
